@@ -51,7 +51,7 @@ SIG_SWALLOW = 'C08 / CRC checked over re-encoding: block array head count raised
 SIG_TYPE0 = 'C08 / CRC checked over re-encoding: CRC type flipped to 0, left-over CRC item ignored (block accepted unchecked)'
 # Genuine defects reported to the coordinator that are possibly not (yet) in known_findings.json: printed as
 # PENDING-FINDING without failing the run; once listed they are ordinary KNOWN-FINDINGs.
-PENDING_FINDINGS = [SIG_SWALLOW, SIG_TYPE0]
+PENDING_FINDINGS = []
 KNOWN_SIGS = (SIG_COLLIDE, SIG_SAME, SIG_EID, SIG_SWALLOW, SIG_TYPE0)
 CORPUS = os.path.join(VERIF, 'harness', 'corpus', 'C08_reencoding_witnesses.json')
 
@@ -336,7 +336,7 @@ def bits_to_xor(start_bit, pattern_bits):
     return (first, bytes(xs))
 
 
-def corruptions(rng, raw, views, bursts_per_block, exhaustive_bits=True):
+def corruptions(rng, raw, views, bursts_per_block, bit_step=1, bit_phase=0):
     ''' (offset, xor-octets hex, tag) inside CRC-protected blocks. '''
     out = []
     seen = set()
@@ -356,9 +356,8 @@ def corruptions(rng, raw, views, bursts_per_block, exhaustive_bits=True):
             continue
         width = 8 * CRC_W[ent['ctype']]
         (lo, hi) = (8 * ent['start'], 8 * ent['end'])
-        if exhaustive_bits:
-            for pos in range(lo, hi):
-                add(pos // 8, bytes([1 << (pos % 8)]), 'bit')
+        for pos in range(lo + (bit_phase % bit_step), hi, bit_step):     # bit_step 1 = every single-bit flip
+            add(pos // 8, bytes([1 << (pos % 8)]), 'bit')
         # directed re-spellings and CRC-value patterns
         size = CRC_W[ent['ctype']]
         for off in range(ent['start'], ent['end']):
@@ -444,7 +443,9 @@ def tx_scenarios(rng, quick):
     for rep in range(reps):
         for (cidx, combo) in enumerate(combos):
             n_ext = (cidx + rep) % 3
-            for path in ('local', 'local-typed', 'fwd', 'fwd-report', 'deliver-report', 'delete-report', 'local-frag', 'fwd-frag'):
+            for (pidx, path) in enumerate(('local', 'local-typed', 'fwd', 'fwd-report', 'deliver-report', 'delete-report', 'local-frag', 'fwd-frag')):
+                if quick and (pidx + cidx) % 2:
+                    continue            # quick: every path with every second CRC-type assignment
                 frag_path = path.endswith('-frag')
                 flags = 0
                 if path.endswith('-report'):
@@ -851,8 +852,9 @@ def main():
     tick(chk, 'tx impl side done: %d scenarios, %d transmissions, exceptions %s' % (len(scenarios), len(tx_raws), tx_exc))
 
     # ---------------------------------------------------------------- receive side: implementation
-    n_bundles = 40 if quick else 400
-    bursts = 24 if quick else 60
+    n_bundles = 36 if quick else 400
+    bursts = 12 if quick else 60
+    full_bits = 12 if quick else n_bundles      # quick: exhaustive single-bit flips for the first 12 bundles, every 3rd bit for the rest
     specs = sweep_specs(rng, n_bundles)
     tasks = []
     skipped = 0
@@ -865,8 +867,9 @@ def main():
             skipped += 1          # the uncorrupted bundle must be one the agent processes
             continue
         views = block_views(raw)
-        corr = corruptions(rng, raw, views, bursts)
-        tasks.append(dict(orig=raw.hex(), corr=corr, crc_types=[ent['ctype'] for ent in views], ref=ref['effects']))
+        exhaustive = len(tasks) < full_bits
+        corr = corruptions(rng, raw, views, bursts, bit_step=(1 if exhaustive else 3), bit_phase=len(tasks))
+        tasks.append(dict(orig=raw.hex(), corr=corr, crc_types=[ent['ctype'] for ent in views], ref=ref['effects'], exhaustive=exhaustive))
     new_driver()
     tick(chk, 'rx tasks built: %d bundles, %d corruptions (skipped %d)' % (len(tasks), sum(len(t['corr']) for t in tasks), skipped))
     with multiprocessing.get_context('fork').Pool(16) as pool:
@@ -895,23 +898,25 @@ def main():
     # ---------------------------------------------------------------- model side (one sharded evaluation)
     model_bad = []
     tx_model_bad = []
-    for (tidx, task) in enumerate(tasks):
+    model_tasks = [tidx for (tidx, task) in enumerate(tasks) if task['exhaustive']]
+    for tidx in model_tasks:
+        task = tasks[tidx]
         evals.append((len(task['corr']), ('rx', tidx), '(BundleCrc.run_rx (%s, [%s]))' % (
             coq_bytes(bytes.fromhex(task['orig'])),
             '; '.join('(%d%%nat, %s)' % (off, coq_bytes(bytes.fromhex(xs))) for (off, xs, _t) in task['corr']))))
-    spec_sample = [idx for (idx, (_s, raw, _v, _p)) in enumerate(tx_raws) if len(raw) <= 110][:24 if quick else 120]
+    spec_sample = [idx for (idx, (_s, raw, _v, _p)) in enumerate(tx_raws) if len(raw) <= 110][:12 if quick else 120]
     for (idx, (_s, raw, _v, _p)) in enumerate(tx_raws):
         evals.append((max(1, len(raw) // 4), ('tx', idx), '(BundleCrc.run_tx %s)' % coq_bytes(raw)))
     for idx in spec_sample:
         evals.append((len(tx_raws[idx][1]) * 3, ('txspec', idx), '(BundleCrc.run_tx_spec %s)' % coq_bytes(tx_raws[idx][1])))
-    model = model_eval(chk, evals)
+    model = model_eval(chk, evals, shards=(8 if quick else 16))
     tick(chk, 'model side done')
     if model is None:
         model_bad.append('model evaluation failed: %s' % chk.model_error)
         rx_model = None
         tx_model = None
     else:
-        rx_model = [model[('rx', tidx)] for tidx in range(len(tasks))]
+        rx_model = [model[('rx', tidx)] for tidx in model_tasks]
         tx_model = [model[('tx', idx)] for idx in range(len(tx_raws))]
         for idx in spec_sample:
             if model[('txspec', idx)] != model[('tx', idx)]:
@@ -926,7 +931,7 @@ def main():
                 table_bad.append('CrcType values %s vs translated %s' % (enum_live, model[('enum', 0)]))
     pos_stats = dict(lax_drop=0, lax_accept=0, lax_none=0, strict_drop=0, strict_accept=0, canonical=0)
     if rx_model is not None:
-        for (task, res_list, rows) in zip(tasks, results, rx_model):
+        for (task, res_list, rows) in zip([tasks[tidx] for tidx in model_tasks], [results[tidx] for tidx in model_tasks], rx_model):
             orig = bytes.fromhex(task['orig'])
             if len(rows) != len(res_list):
                 model_bad.append('result count differs for %s' % task['orig'][:60])
@@ -1002,7 +1007,7 @@ def main():
     for pay in hits[:2 if quick else 8]:
         (raw, offs) = witness_bundle(1, [block16(b'\x01', pay, b'\x43')])
         cands.append(('tstr16', raw, offs[0] + 5, b'\x20'))
-    for (code, low) in hits2[:2 if quick else 8]:
+    for (code, low) in [hit for hit in hits2 if hit[1] >= 2][:2 if quick else 8]:   # 0 / 1: invalid / duplicate block number
         (raw, offs) = witness_bundle(1, [bytes([0x86, 0x19, code >> 8, code & 0xff, 0x19, 0x01, low, 0x00, 0x01, 0x43]) + b'ext' + b'\x42\x00\x00', pay_blk16])
         cands.append(('nonshortest16', raw, offs[0] + 5, b'\x01'))
     if pay32:
@@ -1030,11 +1035,21 @@ def main():
     enough = len(tx_raws) >= 50 and rx_total >= 1000 and all(any(ent['ctype'] == ct for (_s, _r, views, _p) in tx_raws for ent in views) for ct in (0, 1, 2))
     chk.obligation('coverage:tx paths and rx sweep ran', enough, '%d transmissions, %d corruptions' % (len(tx_raws), rx_total))
     chk.coverage['rx_bundles'] = len(tasks)
+    chk.coverage['rx_bundles_exhaustive_single_bit'] = sum(1 for task in tasks if task['exhaustive'])
+    chk.coverage['rx_bundles_compared_with_model'] = len(model_tasks)
     chk.coverage['rx_corruptions'] = rx_total
     chk.coverage['tx_transmissions'] = len(tx_raws)
     chk.coverage['tx_send_exceptions'] = tx_exc
+    chk.coverage['level_note'] = (
+        'proof (Coq, closed) of the transmit-side statements, of check-accepts-valid, of burst / CRC-value detection under the '
+        'canonical-re-encoding hypothesis, and of the gate-first lemma on the agent model; the full receive-side statement is REFUTED for the '
+        'unchanged implementation: five known finding classes, all with one root cause - check_crc verifies the CRC over the re-encoding of a '
+        'laxly dissected block instead of over the received octets (value-preserving re-spelling, EID text normalisation, colliding re-encoding, '
+        'swallowed following block, CRC type flipped to 0). Every accepted corruption outside these five classes is a VIOLATION.')
     chk.coverage['standing_refuted_partial'] = [
-        'C08_detect_refuted / C08_detect_refuted_same_value <-> the two known findings "C08 / CRC checked over re-encoding: ..."',
+        'C08_detect_refuted (colliding re-encoding), C08_detect_refuted_same_value (value-preserving re-spelling), C08_detect_refuted_eid (EID text '
+        'normalisation) <-> known findings "C08 / CRC checked over re-encoding: ..."; the swallowed-block and CRC-type-0 classes are outside the Coq '
+        'model (it takes no position there) and are covered by corpus witnesses only',
         'C08_detect_burst_partial, C08_detect_burst_primary_partial (hypotheses: canonical re-encoding, CRC type unchanged)']
     rep.flush()
     chk.finish(
